@@ -304,6 +304,7 @@ def run(P, R, tier):
     binkinds_rule(P, R)
     precision_rule(P, R)
     optelement_rule(P, R)
+    litindex_rule(P, R)
     # ------------------------------------------------------------------ C10.findopt
     R.rule("C10.findopt", "CParser::find_option: lower-cased token, exact match first, then first entry that begins with it", minimum=1)
     shape, desc = rawio.find_option_shape(P)
@@ -1202,3 +1203,48 @@ def optelement_rule(P, R):
                             "when RAW text is read back" % (cls, o, low[o.lower()]), file=g["file"], line=g["line"], function=g["q"])
     if n < 4:
         R.anchor_missing(RULE, "only %d option words coincide with element symbols" % n)
+
+
+def litindex_rule(P, R):
+    """A writer (dump_raw / Serialize / dump_xml) that subscripts a std::vector member with a literal (p[3]) relies on the vector having that
+    many elements.  The readers of the keyword input may leave it shorter (read_solid_solutions: two-parameter forms push two values into
+    cxxSS::p), so the subscript must sit under a test of the vector's size in the same expression or statement; otherwise the writer reads
+    past the end: garbage in the RAW text and an invalid memory access."""
+    RULE = "C10.litindex"
+    R.rule(RULE, "writers subscript vector members with literals only under a size test", minimum=4)
+    n = 0
+    for k, g in sorted(P.functions.items(), key=lambda kv: kv[1]["q"]):
+        if not (g["q"].endswith("::dump_raw") or g["q"].endswith("::Serialize") or g["q"].endswith("::dump_xml")):
+            continue
+
+        def rec(node, guards):
+            nonlocal n
+            if not T.is_node(node):
+                return
+            if node[0] == "Cond":
+                rec(node[2], guards)
+                rec(node[3], guards + [node[2]])
+                rec(node[4], guards + [node[2]])
+                return
+            if node[0] == "If":
+                rec(node[2], guards)
+                rec(node[3], guards + [node[2]])
+                rec(node[4], guards + [node[2]])
+                return
+            if node[0] == "Call" and T.callee_name(node) == "operator[]" and len(node[4]) == 2:
+                o, i = T.strip_casts(node[4][0]), T.strip_casts(node[4][1])
+                if T.is_node(o) and o[0] == "Member" and "vector" in str(o[4]) and T.is_node(i) and i[0] == "Lit":
+                    n += 1
+                    inst = "%s:%s[%s]@%d" % (g["q"].split("::")[0], o[2].split("::")[-1], i[3], node[1])
+                    sized = any(any(y[0] == "Call" and T.callee_name(y) == "size" and T.call_obj(y) is not None and any(
+                        z[0] == "Member" and z[2] == o[2] for z in T.walk(T.call_obj(y))) for y in T.walk(gd)) for gd in guards)
+                    if sized:
+                        R.ok(RULE, inst, "under a test of %s.size()" % o[2].split("::")[-1])
+                    else:
+                        R.violation(RULE, inst, "%s reads %s[%s] without a test of the vector's size: an input form that leaves fewer elements makes the writer read past the end" % (
+                            g["q"], o[2], i[3]), file=g["file"], line=node[1], function=g["q"])
+            for ch in T.children(node):
+                rec(ch, guards)
+        rec(g["body"], [])
+    if n < 4:
+        R.anchor_missing(RULE, "only %d literal subscripts of vector members in writers" % n)
